@@ -42,13 +42,18 @@ func specName(s confSpec) string {
 	default:
 		n += "+share@" + s.Share
 	}
-	return n + "+" + authKind(s.Auth)
+	n += "+" + authKind(s.Auth)
+	if s.Stealth {
+		n += "+stealth"
+	}
+	return n
 }
 
 func configs(thorough bool) []confSpec {
 	var out []confSpec
+	stealth := false
 	add := func(st, ix string, run bool, share, au string) {
-		s := confSpec{Storage: st, Index: ix, RunIndex: run, Share: share, Auth: au}
+		s := confSpec{Storage: st, Index: ix, RunIndex: run, Share: share, Auth: au, Stealth: stealth}
 		s.Name = specName(s)
 		for _, o := range out {
 			if o.Name == s.Name {
@@ -62,6 +67,10 @@ func configs(thorough bool) []confSpec {
 		add("localdisk", "leveldb", true, "/pub/share/", authModes[1])
 		add("diskpacked", "sqlite", true, "default", authModes[2])
 		add("blobpacked", "kv", false, "", authModes[0])
+		// stealth root handler (low-level option), two auth modes
+		stealth = true
+		add("memory", "memory", true, "default", authModes[0])
+		add("memory", "memory", true, "", authModes[2])
 		return out
 	}
 	k := 0
@@ -81,6 +90,13 @@ func configs(thorough bool) []confSpec {
 	}
 	// perkeep is expected to reject a share handler without an index; recorded, not judged
 	add("memory", "memory", false, "default", authModes[0])
+	// stealth root handler (low-level option) under every credential-requiring auth mode
+	stealth = true
+	for i, au := range authModes {
+		add("memory", "memory", true, shares[i%len(shares)], au)
+	}
+	add("localdisk", "leveldb", true, "default", authModes[1])
+	add("diskpacked", "kv", false, "", authModes[0])
 	return out
 }
 
@@ -208,11 +224,16 @@ func part2(r *ev.Run) {
 	}
 	r.Require("auth_modes", "userpass", "basic", "token")
 	r.Require("methods", "GET", "HEAD", "POST", "PUT", "DELETE")
-	r.Require("credential_variants", "none", "wrong-basic", "wrong-token", "empty-basic")
+	r.Require("credential_variants", "none", "wrong-basic", "wrong-token", "empty-basic", "wronguser-rightpass", "rightuser-empty-pass", "truncated-token",
+		"ws-upgrade-empty-token", "ws-upgrade-wrong-token")
 	r.Require("handler_types", "root", "status", "help", "jsonsign", "search", "ui", "importer", "sync", "share",
 		"storage-index", "storage-replica", "storage-cond")
 	r.Require("discriminating_endpoints", "storage", "search", "jsonsign", "sync", "status", "help", "importer", "ui", "root", "debug")
 	r.Require("server_share", "served-valid-chain", "refused-invalid-chain")
+	r.Require("root_modes", "plain", "stealth")
+	r.Require("stealth_requests", "discovery", "discovery-jsonp", "discovery-accept-header", "discovery-below-root", "discovery-post-form")
+	r.Require("discovery", "authenticated-document-carries-the-auth-token")
+	r.Require("stealth_with_credentials", "discovery-served")
 	r.Require("state_dump", "index-rows", "blob-enumeration")
 	r.Require("storages", storages...)
 	r.Require("indexes", "memory", "leveldb", "kv", "sqlite", "runIndex=false")
